@@ -24,6 +24,7 @@ type rangeLoop struct {
 	If     *ssa.If
 	// Counting: a `for i := 0; i < len(x.f); i++` loop; any load of the same field of the same object is the list
 	Counting bool
+	Start    int64 // first index of a counting loop (0 for the loops rangeLoops returns)
 	stable   int // 0 unknown, 1 the walked list field is not stored to inside the loop, -1 it is
 }
 
@@ -92,13 +93,13 @@ func rangeLoops(fn *ssa.Function) []*rangeLoop {
 			out = append(out, rl)
 		}
 	}
-	return append(out, countingLoops(fn)...)
+	return append(out, countingLoops(fn, false)...)
 }
 
 // countingLoops recognises `for i := 0; i < len(X); i++` (also `i < n` with n := len(X)): the spelling of a forward
 // range loop with an explicit index. Over is the measured list; when it is a load of a list field, any load of the
 // same field of the same object is the list (sameList), provided the loop does not store to that field.
-func countingLoops(fn *ssa.Function) []*rangeLoop {
+func countingLoops(fn *ssa.Function, anyStart bool) []*rangeLoop {
 	var out []*rangeLoop
 	for _, b := range fn.Blocks {
 		if b.Comment != "for.loop" || len(b.Instrs) == 0 {
@@ -117,9 +118,11 @@ func countingLoops(fn *ssa.Function) []*rangeLoop {
 			continue
 		}
 		zero, step := false, false
+		var start int64
 		for _, e := range ph.Edges {
-			if k, isK := constInt(e); isK && k == 0 {
+			if k, isK := constInt(e); isK && (k == 0 || anyStart && k > 0) {
 				zero = true
+				start = k
 			} else if isPlusOne(e, ph) {
 				step = true
 			}
@@ -128,7 +131,7 @@ func countingLoops(fn *ssa.Function) []*rangeLoop {
 		if !zero || !step || !isLen {
 			continue
 		}
-		rl := &rangeLoop{Fn: fn, Header: b, Body: b.Succs[0], Done: b.Succs[1], Idx: ph, Over: over, If: ifi, Counting: true}
+		rl := &rangeLoop{Fn: fn, Header: b, Body: b.Succs[0], Done: b.Succs[1], Idx: ph, Over: over, If: ifi, Counting: true, Start: start}
 		if ref, _ := loadedField(over); ref != "" {
 			replaced := false
 			eachInstr(fn, func(in ssa.Instruction) {
@@ -1397,4 +1400,79 @@ func rulePurePrinters(c *Ctx, rule string) {
 	if n < 8 {
 		c.undecided(rule, "pure-printers/floor", "-", fmt.Sprintf("only %d printers found (expected >= 8)", n))
 	}
+}
+
+// ---- (value, error) pairs joined by phi nodes ------------------------------------------------------------------
+//
+// A helper with several `return value, err` statements, once inlined (or a switch that assigns value and err in
+// each arm), leaves two phi nodes in one block: the values and the errors, edge by edge. A use of the joined value that
+// is guarded by `joined error == nil` is, edge by edge, a use of one value under "its own error is nil".
+
+// okPair is one value a joined value can stand for at a site guarded by the nil test of the joined error; Err is the
+// error that travelled with it (nil when the value is not such a join: the site's own guards apply as they are).
+type okPair struct {
+	Val, Err ssa.Value
+	At       ssa.Instruction // where the guards of this value are to be evaluated (the site itself, or the end of the edge the value came in on)
+}
+
+func (w *World) okPairs(fn *ssa.Function, site ssa.Instruction, v ssa.Value) []okPair {
+	return w.okPairsD(fn, site, v, 0)
+}
+
+func (w *World) okPairsD(fn *ssa.Function, site ssa.Instruction, v ssa.Value, depth int) []okPair {
+	ph, ok := strip(v).(*ssa.Phi)
+	if !ok || len(ph.Edges) < 2 || depth > 3 {
+		return []okPair{{Val: v, At: site}}
+	}
+	// the error joined in the same block whose nil test guards the site
+	var eph *ssa.Phi
+	for _, in := range ph.Block().Instrs {
+		e, isPhi := in.(*ssa.Phi)
+		if !isPhi {
+			break
+		}
+		if e == ph || !isErrorType(e.Type()) || len(e.Edges) != len(ph.Edges) {
+			continue
+		}
+		sel := func(a Atom) bool { return a.Kind == "nil" && strip(a.X) == ssa.Value(e) }
+		if w.requires(fn, site, sel, true) {
+			eph = e
+			break
+		}
+	}
+	if eph == nil {
+		// a plain join: each edge value is used at the site only when control came in over that edge, so its guards
+		// are those that hold at the end of that edge
+		var out []okPair
+		for i, e := range ph.Edges {
+			out = append(out, w.okPairsD(fn, lastInstr(ph.Block().Preds[i]), e, depth+1)...)
+		}
+		return out
+	}
+	var out []okPair
+	for i, e := range ph.Edges {
+		ev := eph.Edges[i]
+		if w.isFreshError(ev) {
+			continue // this edge never passes the nil test
+		}
+		end := lastInstr(ph.Block().Preds[i])
+		evv := ev
+		if w.requires(fn, end, func(a Atom) bool { return a.Kind == "nil" && strip(a.X) == strip(evv) }, false) {
+			continue // `if err != nil { return nil, err }`: neither does this one
+		}
+		if c, isC := ev.(*ssa.Const); isC && c.Value == nil {
+			// `return value, nil`: the value as it is on that edge (which may be a join itself)
+			out = append(out, w.okPairsD(fn, end, e, depth+1)...)
+			continue
+		}
+		out = append(out, okPair{Val: e, Err: ev, At: end})
+	}
+	return out
+}
+
+func lastInstr(b *ssa.BasicBlock) ssa.Instruction { return b.Instrs[len(b.Instrs)-1] }
+
+func isErrorType(t types.Type) bool {
+	n, ok := t.(*types.Named)
+	return ok && n.Obj().Pkg() == nil && n.Obj().Name() == "error"
 }
